@@ -195,6 +195,11 @@ FIXED = [
     ("INT N=0-3 WHILE(N){ PRINT(N) n60 N++ } PRINT(N)", "(() ((decl N (b 4 0 3)) (while N ((print N) (note 60) (inc N 1))) (print N)))"),
     ("FOR(INT I=0-2; I; I++){ PRINT(I) n61 } PRINT(I)", "(() ((for I (b 4 0 2) I (inc I 1) ((print I) (note 61))) (print I)))"),
     ("INT N=0-2 IF(N){ PRINT(1) }ELSE{ PRINT(2) } WHILE(N+1){ N++ PRINT(N) }", "(() ((decl N (b 4 0 2)) (if N ((print 1)) ((print 2))) (while (b 3 N 1) ((inc N 1) (print N)))))"),
+    # a statement after an IF block whose name begins with ELSE is that statement, not the keyword
+    ("INT ELSEV=1 IF(1){ PRINT(5) } ELSEV=2 PRINT(ELSEV) IF(0){ PRINT(6) } ELSEV=3 PRINT(ELSEV)",
+     "(() ((decl ELSEV 1) (if 1 ((print 5)) ()) (assign ELSEV 2) (print ELSEV) (if 0 ((print 6)) ()) (assign ELSEV 3) (print ELSEV)))"),
+    ("FUNCTION ElseDo(A){ PRINT(A+1) } IF(0){ PRINT(1) } ElseDo(4) IF(1){ PRINT(2) }ELSE{ PRINT(3) } ElseDo(7)",
+     "(((fn ElseDo ((A _)) ((print (b 3 A 1))))) ((if 0 ((print 1)) ()) (call ElseDo (4)) (if 1 ((print 2)) ((print 3))) (call ElseDo (7))))"),
     ("INT X=5 FUNCTION F(A=2){ INT X=A+1 X=X+1 Result=X } PRINT(F()) PRINT(X)", "(((fn F ((A 2)) ((decl X (b 3 A 1)) (assign X (b 3 X 1)) (assign Result X)))) ((decl X 5) (print (call F ())) (print X)))"),
 ]
 
